@@ -124,7 +124,7 @@ func (c *c41) model(node int, blk uint32) *roundModel {
 // fail records a violation once per key and run. Quorum-level violations do not end the run
 // (later oracles - sealing, agreement - are what they lead to); the others do.
 func (c *c41) fail(key, format string, a ...interface{}) {
-	fatal := !(key == "sealed-invalid-signature" || strings.HasPrefix(key, "quorum-") || strings.Contains(key, "-below-quorum") || strings.Contains(key, "depends-on-map-order") || key == "pools-sealed-different-blocks")
+	fatal := !(key == "sealed-invalid-signature" || key == "sealed-signature-not-for-sealed-block" || key == "commit-done-empty-miscount" || strings.HasPrefix(key, "quorum-") || strings.Contains(key, "-below-quorum") || strings.Contains(key, "depends-on-map-order") || key == "pools-sealed-different-blocks")
 	if fatal {
 		c.stop = true
 	}
@@ -624,7 +624,23 @@ func (c *c41) trySeal(r *part, why string) {
 		return
 	}
 	if len(invalid) > 0 {
-		c.fail("sealed-invalid-signature", "node %d block %d (proposer %d empty=%v): the sealed block carries signatures attributed to participants %v that do not verify for the sealed header (bookkeepers %v); model: valid supporters of this block hash are %v",
+		// "sealed-invalid-signature" names the consequence of the pool's index-keyed records:
+		// the participant did send (or was named in) a vote for (proposer, variant), but for
+		// another block hash or signed by someone else. A bad signature without such a vote
+		// means the pool attached a signature from a record that is not for this variant.
+		key := "sealed-invalid-signature"
+		for _, idx := range invalid {
+			explained := false
+			for _, v := range mod.votes {
+				if int64(v.claimed) == idx && v.proposer == cd.p && v.empty == cd.fe && (v.hash != h || v.signer != idx) {
+					explained = true
+				}
+			}
+			if !explained {
+				key = "sealed-signature-not-for-sealed-block"
+			}
+		}
+		c.fail(key, "node %d block %d (proposer %d empty=%v): the sealed block carries signatures attributed to participants %v that do not verify for the sealed header (bookkeepers %v); model: valid supporters of this block hash are %v",
 			r.idx, blk, cd.p, cd.fe, invalid, signerIdx, setStr(sup))
 		// whether the ledger takes such a block depends on the position of the bad signature
 		// (map order): the node is left out of the rest of the run instead
@@ -1660,7 +1676,7 @@ func init() {
 			"C is the chain configuration's (GenesisChainConfig: floor((N-1)/3) since the C40 repair; a tree without it would be run with that value for N divisible by 3, where N/3 admits no selection)",
 			"ECDSA signatures, VRF proofs and block nonces are randomised: block hashes differ between executions of one plan and are never logged or used to order anything",
 			"agreement between pools is asserted only with at most C Byzantine participants; quorum-level violations do not end a run (the seal and agreement oracles show what they lead to), all others do"},
-		QuickRuns: 1200, ThoroughRuns: 90000, QuickCap: 50, ThoroughCap: 800,
+		QuickRuns: 1000, ThoroughRuns: 90000, QuickCap: 40, ThoroughCap: 800,
 		RequiredProbes: []string{"endorse_done_exactly_C_plus_1", "commit_by_endorse_sigs", "empty_block_decision", "non_member_vote_ignored", "block_sealed_and_persisted", "duplicate_delivery", "reordered_delivery", "equivocating_proposer", "empty_block_vote", "commit_done_exactly_at_threshold"},
 		Generate:       genC41, Execute: execC41,
 	})
